@@ -25,7 +25,7 @@ def check(run, only=None):
                 "and the same inside if/else/for/block/set/filter/macro bodies (depth 2; thorough depth 3), each in canonical and "
                 "tight ({%if x%}) spelling; non-trivial = >= 2 literal chunks and >= 1 construct")
     run.assumptions = ["a literal run followed by a construct does not end in '{'"]
-    simple.gen_and_replay(run, "C03", nontrivial=nontrivial, only=only, sigfn=sigfn, check_log=False, deadline_ms=400)
+    simple.gen_and_replay(run, "C03", nontrivial=nontrivial, only=only, sigfn=sigfn, check_log=False, deadline_ms=3000)
 
 
 def replay(run, path):
